@@ -175,3 +175,39 @@ def minimise(case, sig, verdict_fn, budget=400):
                 progress = True
                 break
     return cur
+
+
+def real_strategy(base, n_small=True):
+    """the same case format, marked for the reality tier (E4): real processes, sleeps instead of scheduler delays"""
+    def mark(c):
+        c = dict(c)
+        c["real"] = True
+        c.setdefault("kind", "pool")
+        c.pop("sched", None)
+        return c
+    return base.map(mark)
+
+
+def judge_real(case, ctx, name, want_values=True, want_liveness=True):
+    from .. import reality
+    from ..common import Inconclusive
+    r = reality.run_real(case)
+    ctx.label("real-processes")
+    ctx.nontrivial = True
+    if r["verdict"] == "inconclusive":
+        raise Inconclusive("real run exceeded the wall-clock guard or ended without a result")
+    if r["verdict"] == "deadlock":
+        if want_liveness:
+            ctx.fail("%s/real-processes/quiescent-before-finishing" % name,
+                     "no process of the case consumed CPU for %ds while call %d of %d was unfinished" % (reality.QUIET, r["calls_done"], len(case["calls"])))
+        return r
+    if r.get("exc") and want_values:
+        ctx.fail("%s/real-processes/exception" % name, r["exc"])
+    if want_values:
+        for ci, got in enumerate(r["outputs"][:r["calls_done"]]):
+            call = case["calls"][ci]
+            exp = P.expected_for(call, ci)
+            ok = got == exp if call.get("mode", "o") == "o" else sorted(got) == sorted(exp)
+            if not ok:
+                ctx.fail("%s/real-processes/%s" % (name, P.classify_diff(got, exp, ci)), "call %d gave %r expected %r" % (ci, P.short(got), P.short(exp)))
+    return r
